@@ -140,6 +140,7 @@ type Engine struct {
 	notes    []string
 	conc     bool
 
+	objInvs       map[string]bool
 	nGlobals      int
 	usedLemmas    map[string]bool
 	ordinals      map[string]int
@@ -177,6 +178,7 @@ func (x *Engine) reset(fn string) {
 	x.usedContracts = map[string]bool{}
 	x.ordinals = map[string]int{}
 	x.nGlobals = 0
+	x.objInvs = map[string]bool{}
 	if x.usedLemmas == nil {
 		x.usedLemmas = map[string]bool{}
 	}
